@@ -68,9 +68,14 @@ def h_target(ctx, chroms, split, avg, m=200):
         for b in orows[i + 1 :]:
             if a[0] == b[0]:
                 ctx.claim(Or(a[2] <= b[1], b[2] <= a[1]), "split target bins do not overlap")
+    from symx.props.C08 import natural_key
+
     for a, b in zip(orows[:-1], orows[1:]):
         if a[0] == b[0]:
             ctx.claim(a[1] <= b[1], "split target bins are in genomic order")
+        else:
+            ctx.claim(natural_key(a[0]) < natural_key(b[0]), "split target bins are in genomic order (chromosomes in natural order: 2 before 10)")
+            ctx.cover("two chromosomes in the output")
     # each merged bait region is cut into max(1, round(L/avg)) bins of equal size (+-1)
     if len(nonempty) == 1:
         regions = [(nonempty[0][0], nonempty[0][1], nonempty[0][2], True)]
@@ -105,6 +110,9 @@ def h_antitarget(ctx, t_chroms, access_mode, avg, mn, m=6000, case=None, nested3
     if nested3:
         # an enclosing target with two separate targets nested inside it
         ctx.assume(And(trows[0][1] <= trows[1][1], trows[1][2] < trows[2][1], trows[2][2] <= trows[0][2]))
+    if access_mode == "mixed":
+        # what is decided here is which contigs get antitargets: the second bait is pinned
+        ctx.assume(And(trows[1][1] == 1000, trows[1][2] == 1100))
     if access_mode != "none":
         a = ctx.int("as0", 0, m)
         b = ctx.int("ae0", 0, m)
@@ -119,6 +127,9 @@ def h_antitarget(ctx, t_chroms, access_mode, avg, mn, m=6000, case=None, nested3
         extra = []
         if access_mode == "contigs":
             extra = [("chr2", 0, 2500), ("chrUn_gl000220", 0, 2500)]
+        elif access_mode == "mixed":
+            # the panel also targets a non-canonical contig; another non-canonical one (chrM) is untargeted
+            extra = [("chr2", 0, 2500), ("chrUn_gl000220", 0, 2500), ("chrM", 0, 2500)]
         access = GA.from_rows(arows + extra)
         access.sort()
     try:
@@ -140,7 +151,7 @@ def h_antitarget(ctx, t_chroms, access_mode, avg, mn, m=6000, case=None, nested3
                 last = Max2(last, e_)
             acc.append((c, 150000, last))
     else:
-        acc = list(arows)
+        acc = list(arows) + [e for e in extra if e[0] in t_chroms]
     shrunk = [(c, lo + PAD, hi - PAD) for c, lo, hi in acc]
     padded = [(c, Max2(s - PAD, 0), e + PAD) for c, s, e in trows]
 
@@ -168,10 +179,10 @@ def h_antitarget(ctx, t_chroms, access_mode, avg, mn, m=6000, case=None, nested3
     r_ = ctx.int("r", 0, 2 * m)
     window_in_F = And(l <= x, x < r_, r_ - l >= mn, Or(*[And(lo <= l, r_ <= hi) for cc, lo, hi in shrunk if cc == "chr1"]), *[Or(r_ <= lo, l >= hi) for cc, lo, hi in padded if cc == "chr1"])
     ctx.claim(Implies(window_in_F, covered(o1, "chr1", x)), "every stretch of off-target accessible sequence of at least the minimum size is covered")
-    if access_mode == "contigs":
+    if access_mode in ("contigs", "mixed"):
         o2 = [r for r in orows if r[0] == "chr2"]
         ctx.claim(len(o2) >= 1 and o2[0][1] == PAD and o2[-1][2] == 2500 - PAD, "an untargeted canonical contig is binned over its shrunk accessible region")
-        ctx.claim(not [r for r in orows if r[0] not in ("chr1", "chr2")], "an untargeted non-canonical contig gets no antitargets")
+        ctx.claim(not [r for r in orows if r[0] not in ("chr1", "chr2") and r[0] not in t_chroms], "an untargeted non-canonical contig gets no antitargets")
         ctx.cover("contigs")
     if len(trows) == 2:
         ctx.cover("targets nested", And(trows[0][1] <= trows[1][1], trows[1][2] <= trows[0][2]))
@@ -193,6 +204,7 @@ def _anti_cfgs():
             # whose table order (chr2, chr10) differs from the lexicographic one
             out.append({"t_chroms": ["chr2", "chr10"], "access_mode": "none", "avg": 100000, "mn": 30000, "m": 600000})
             out.append({"t_chroms": ["chr1", "chr1", "chr1"], "access_mode": "one", "avg": avg, "mn": mn, "nested3": True})
+            out.append({"t_chroms": ["chr1", "chrUn_gl000220"], "access_mode": "mixed", "avg": avg, "mn": mn, "m": 3000})
         for c in split_cases({"t_chroms": ["chr1", "chr1"], "access_mode": "one", "avg": avg, "mn": mn}, *_S2):
             if avg == 700:
                 c["tier"] = "thorough"
@@ -204,9 +216,9 @@ HARNESSES = [
     Harness(
         "target",
         h_target,
-        [{"chroms": lay, "split": sp, "avg": avg} for lay in (["chr1"], ["chr1", "chr1"], ["chr1", "chr2"]) for sp in (False, True) for avg in (40,)]
+        [{"chroms": lay, "split": sp, "avg": avg} for lay in (["chr1"], ["chr1", "chr1"], ["chr1", "chr2"], ["chr2", "chr10"]) for sp in (False, True) for avg in (40,)]
         + [{"chroms": ["chr1"], "split": True, "avg": 267, "m": 1200}, {"chroms": ["chr1", "chr1"], "split": True, "avg": 25, "m": 120, "tier": "thorough"}],
-        covers=["zero-width bait dropped", "split happened"],
+        covers=["zero-width bait dropped", "split happened", "two chromosomes in the output"],
         wall_s=240,
         thorough_wall_s=1500,
     ),
